@@ -118,7 +118,7 @@ def operator_programs(rng, quick):
         # the same object in two roles of one operation (container and index, receiver and argument, both operands):
         # formatting, comparing or hashing the one while the other is borrowed or being changed
         for self_role in ["%s[%s]", "%s[%s] = 1", "%s[(%s, 1)] = 1", "%s[[%s]] = 1", "%s[{1: %s}] = 1", "%s.find(%s, 0)", "%s.replace(%s, \"r\")",
-                          "%s.split(%s)", "%s.starts_with(%s)", "%s.has_key(%s)", "%s.get(%s)", "%s.remove(%s)", "%s.derives(%s)", "%s.call(%s)",
+                          "%s.split(%s)", "%s.starts_with(%s)", "%s.has_key(%s)", "%s.get(%s)", "%s.remove(%s)", "%s.insert(%s, 1)", "%s.insert((1, %s), 1)", "%s.insert([%s], 1)", "%s.remove((%s,))", "%s.has_key([%s])", "%s.derives(%s)", "%s.call(%s)",
                           "%s(%s)", "%s == %s", "%s < %s", "%s + %s", "%s..%s", "%s.iter().map(%s).collect()", "%s.iter().reduce(%s, 0)"]:
             if "=" in self_role and " = 1" in self_role:
                 lines.append("try { %s; print(\"stored\"); } catch e { print(type(e)); print(e.context); }" % (self_role % (a, a)))
